@@ -1,7 +1,7 @@
 #!/bin/bash
 # runall.sh <tier> [seed] — run every registered check once, print a one-line summary each.
 tier=${1:-quick}; export VERIF_SEED=${2:-1}
-cd /verif
+cd "$(dirname "$0")/.."
 for p in $(jq -r '.checks[].property_id' MANIFEST.json); do
   s=$(date +%s); out=$(./run.sh $p $tier 2>&1); rc=$?; e=$(( $(date +%s) - s ))
   echo "$p rc=$rc ${e}s $(echo "$out" | grep -E '^(OK|VIOLATION|BROKEN|INFRA)' | head -2 | tr '\n' ' ' | cut -c1-160)"
